@@ -104,6 +104,13 @@ impl<'i> ResolvedCall<'i> {
         // https://github.com/fluencelabs/aquavm/issues/214
         // also note that if there is a non-join error then the corresponding state
         // won't be saved to data
+        #[cfg(aquavm_verif)]
+        if matches!(self.check_args(exec_ctx), Err(ref error) if error.is_catchable()) {
+            let (prev, current) = trace_ctx.verif_next_states_are_sent_calls();
+            if prev || current {
+                crate::verif_hooks::emit(crate::verif_hooks::Event::FailedCallLeavesSentState { prev, current });
+            }
+        }
         let checked_args = match self.check_args(exec_ctx)? {
             CheckArgsResult::Ok(args) => Some(args),
             CheckArgsResult::Joinable(_) => None,
